@@ -10,7 +10,7 @@ VALIDATION_CASES = {'quick': 120, 'thorough': 400}
 TIME_BUDGET = {'quick': 600, 'thorough': 3000}
 BOUNDS = {
     'quick': '1-3 sources with 0-2 items each (every length vector), the three strategies, seed symbolic (u64) or absent; '
-             'weighted draws: every index with positive weight (all random streams)',
+             'weighted draws: every index with positive weight (all random streams); six layouts in which one item of a source is an Err',
     'thorough': '1-4 sources with 0-3 items each',
 }
 OUTSIDE = ['more sources / longer sources', 'the ChaCha8 stream itself (modelled as every stream)',
@@ -30,6 +30,10 @@ def shapes(tier):
         for lens in itertools.product(range(ml + 1), repeat=k):
             for st in STRATS:
                 out.append({'lengths': list(lens), 'strategy': st})
+    # one item of a source is an Err (a malformed line in the middle of a file): it is an item like any other
+    for lens, err in (([2], [0, 0]), ([3], [0, 1]), ([2, 2], [0, 0]), ([2, 1], [0, 1]), ([1, 2], [1, 0]), ([2, 1, 1], [0, 0])):
+        for st in STRATS:
+            out.append({'lengths': lens, 'strategy': st, 'err': err})
     out.sort(key=lambda s: sum(s['lengths']))
     return out
 
@@ -54,9 +58,13 @@ def run(ctx, shape, opts):
     lengths = shape['lengths']
     st = shape['strategy']
     total = sum(lengths)
-    gens = VecObj([BoxObj(ListIter([Ok(Struct('TrainData', [m.new_string('s%d_%d' % (s, j)), m.new_string('t')],
-                                                    ['input', 'target'])) for j in range(n)]))
-                   for s, n in enumerate(lengths)])
+    err = tuple(shape['err']) if shape.get('err') else None
+
+    def mk_item(s, j):
+        if err == (s, j):
+            return Err(Struct('anyhow::Error', [m.new_string('s%d_%d' % (s, j))], ['msg']))
+        return Ok(Struct('TrainData', [m.new_string('s%d_%d' % (s, j)), m.new_string('t')], ['input', 'target']))
+    gens = VecObj([BoxObj(ListIter([mk_item(s, j) for j in range(n)])) for s, n in enumerate(lengths)])
     from models_core import ListIter as _LI  # noqa
     has_seed = ctx.in_choice('has_seed', 2)
     seed = Some(ctx.in_int('seed', 'u64')) if has_seed else NONE()
@@ -75,8 +83,9 @@ def run(ctx, shape, opts):
         if v is STOP:
             break
         item, src = v.fields
-        ctx.require(item.variant == 'Ok', 'items are passed through unchanged')
-        name = item.fields[0].get('input').as_str().concrete()
+        ctx.require(item.variant in ('Ok', 'Err'), 'items are passed through unchanged')
+        name = (item.fields[0].get('input') if item.variant == 'Ok' else item.fields[0].get('msg')).as_str().concrete()
+        ctx.require((item.variant == 'Err') == (err is not None and name == 's%d_%d' % err), 'items are passed through unchanged')
         s, j = name[1:].split('_')
         ctx.require(isinstance(src.v, int) and src.v == int(s), 'item is tagged with its source index')
         got.append((int(s), int(j)))
@@ -102,8 +111,9 @@ from models_core import ListIter  # noqa: E402
 
 def native_outputs(native, shape, inputs):
     seed = inputs.get('seed') if inputs.get('has_seed') else None
+    extra = {'err': shape['err']} if shape.get('err') else {}
     k, v = native_ok(native.call('multi_gen', lengths=shape['lengths'], strategy=shape['strategy'],
-                                 seed=None if seed is None else str(seed), _timeout=10.0))
+                                 seed=None if seed is None else str(seed), _timeout=10.0, **extra))
     if k == 'timeout':
         return {'timeout': True}
     if k != 'ok':
